@@ -224,6 +224,15 @@ def olit(x):
   return core.optlit(x, core.zlit)
 
 
+def zl(ns):
+  # empty list literals carry their type: the first case of a shard fixes the type of the whole list
+  return core.zlist(ns) if ns else '(@nil Z)'
+
+
+def ol(xs):
+  return core.coq_list([olit(x) for x in xs]) if xs else '(@nil (option Z))'
+
+
 EXC = {'ValueError': 'PyValueError', 'AssertionError': 'PyAssertionError', 'KeyError': 'PyKeyError',
        'TypeError': 'PyTypeError'}
 
@@ -240,13 +249,13 @@ def correspond(ctx):
       req = gen_req(ctx.rng, rows)
       nxt = ctx.rng.choice([1, 1, 2, 3, 5, 10, MAXID, MAXID + 5])
       try:
-        out = 'PyOk %s' % core.coq_list([olit(x) for x in frag(list(req), nxt)])
+        out = 'PyOk %s' % ol(frag(list(req), nxt))
       except ValueError:
         out = 'PyErr PyValueError'
       except Exception as ex:    # pylint: disable=broad-except
         out = 'PyErr %s' % EXC.get(type(ex).__name__, 'PyTypeError')
       args.append((req, nxt))
-      coq.append('(%s, %s, (%s))' % (core.coq_list([olit(x) for x in req]), core.zlit(nxt), out))
+      coq.append('(%s, %s, (%s))' % (ol(req), core.zlit(nxt), out))
       ctx.bump('fragment-cases')
     bad = ctx.run_cases('frag', ['Grist.Lib.PyPrelude', 'Grist.Lib.PyMonad', 'GristGen.RowIds_gen'],
                         'fun c => py_result_eqb (py_list_eqb (py_option_eqb Z.eqb)) '
@@ -281,7 +290,7 @@ def correspond(ctx):
       if not all(is_int(x) for x in ret):
         ctx.broken('correspondence:returned ids are not ints', 'case %r -> %r' % (case, res))
         continue
-      o = 'Accepted %s %s' % (core.zlist(ret), core.zlist(res['after']))
+      o = 'Accepted %s %s' % (zl(ret), zl(res['after']))
     else:
       if res['outcome'] not in EXC:
         if nbad_setup < 3:
@@ -289,8 +298,7 @@ def correspond(ctx):
         nbad_setup += 1
         continue
       o = 'Rejected %s' % EXC[res['outcome']]
-    coq.append('(%s, %s, %s, (%s))' % (core.boollit(replace), core.zlist(case['rows']),
-                                       core.coq_list([olit(x) for x in case['req']]), o))
+    coq.append('(%s, %s, %s, (%s))' % (core.boollit(replace), zl(case['rows']), ol(case['req']), o))
     idx.append(n)
   bad = ctx.run_cases('engine', ['Grist.Lib.PyPrelude', 'Grist.Lib.PyMonad', 'Grist.Model.RowIds'],
                       'fun c => outcome_eqb (%s (fst (fst (fst c))) (snd (fst (fst c))) (snd (fst c))) (snd c)'
@@ -425,4 +433,3 @@ LEVEL_TEXT = ('Kernel-checked: the translated loop equals Model/RowIds.fill; on 
 LEVEL_NOTE = ('Trusted: Coq kernel, py2v_ext translator (validated each run), the hand model of next_row_id / '
               'BulkAddRecord / ReplaceTableData on the row-id set (compared with the engine each run). Rollback after '
               'a rejected request is observed on the engine, not modelled. Three known findings.')
-DISABLED = True
